@@ -359,13 +359,27 @@ Theorem C13_h_unique_event_names : forall s b, forallb wf_op s = true -> uk_scop
 Proof. exact uk_exec. Qed.
 Print Assumptions C13_h_unique_event_names.
 
-(* REFUTED for source/dest filters: remove_transition(trigger, source=p) matches the filter
-   scope by scope against RELATIVE names, so it also removes transitions of other states.
-   Witness: states s1 and s2{s1, s3}; s2 declares e0: s1 -> s3 (i.e. from s2_s1); no
-   transition has source s1, yet remove_transition('e0', source='s1') removes it.
-   (Replayed on /repo: candidate finding, see the report.) *)
-Theorem C13_h_remove_scope_refuted :
-  ~ In (0, [1]) (abs_sources quirk_machine) /\
-  abs_sources (fst (hrun_op (HRemove 0 [1] []) quirk_machine)) <> abs_sources quirk_machine.
-Proof. exact remove_scope_refuted. Qed.
-Print Assumptions C13_h_remove_scope_refuted.
+(* ---- remove_transition(trigger, source, dest) with filters (D46, fixed in /repo; this used to
+   be C13_h_remove_scope_refuted): it deletes, in every scope at any depth, exactly the
+   transitions whose ABSOLUTE source and destination are the given paths - whatever scope
+   declares them, and nothing else *)
+Theorem C13_h_remove_filter : forall trig sp dp sc, wfp_scope sc = true ->
+  rem_scope trig sp dp sc = filt_scope trig sp dp sc.
+Proof. exact remove_is_absolute_filter. Qed.
+Print Assumptions C13_h_remove_filter.
+
+(* hence add-then-remove with a filter = never added: transitions from sp to dp added and
+   removed again by that filter, on a machine where nothing else has that absolute source and
+   destination, leave exactly the machine before *)
+Theorem C13_h_remove_filter_inverse : forall trig sp dp l b,
+  wfp_scope (hb_scope b) = true ->
+  filt_scope trig sp dp (hb_scope b) = hb_scope b ->
+  Forall (fun p => fst p = trig /\ abs_match [] sp dp (snd p) = true) l ->
+  hexec [HAddTransitions l; HRemove trig sp dp] b = (b, None).
+Proof. exact remove_filter_inverse. Qed.
+Print Assumptions C13_h_remove_filter_inverse.
+
+(* the former counterexample: states s1 and s2{s1, s3}; s2 declares e0: s1 -> s3 (i.e. from
+   s2_s1); remove_transition('e0', source='s1') now leaves the machine alone *)
+Example C13_h_remove_scope_example : hrun_op (HRemove 0 [1] []) quirk_machine = (quirk_machine, None).
+Proof. exact remove_scope_example. Qed.
